@@ -884,7 +884,7 @@ def run_meta(cx):
     for _ in range(cx.n(100, 1500)):
         try:
             d = Desc(rng)
-        except (IndexError, ValueError, RecursionError):
+        except (IndexError, ValueError, RecursionError, AttributeError, TypeError, KeyError):
             continue
         descs.append(d)
     fsets = [[], ["f1"], ["f2", "f3"], ["f1", "f2", "f3"]]
